@@ -305,7 +305,7 @@ func behaviouralTypes(quick bool) (fine, lean, res []*ty, bound string) {
 			}
 		}
 		d2 = append(d2, oneComposite(ch, leavesOf("i8"), 2)...)
-		fine = append(structsOver(two, 2), tArr(2, two[0]), tOpt(two[1]))
+		fine = []*ty{tStruct(two[0], two[1]), tArr(2, two[0]), tOpt(two[1])}
 		lean = append(append(lean, d1...), d2...)
 		res = append(results(nil, all6), results(ch, leavesOf("i64"))...)
 		bound = fmt.Sprintf("behavioural (quick): depth1 = structs of 1-2 fields over {i8,i16,i32,i64,bool,str}, of 3 fields over {i8,i64,str} and the six orders of (i8,i32,i64), [2]T/[3]T/T? over all six: %d types; depth2 = [2]C, C?, {C}, {C,i8}, {i8,C} for C in the structs of 1-2 fields, [2]T, T? over {i8,i64} (%d children): %d types; fine-grained case set on %d depth1 types; results: leaf x leaf over six leaves, and C ! i64, i64 ! C: %d", len(d1), len(ch), len(d2), len(fine), len(res))
@@ -444,7 +444,7 @@ func Run(c *vl.Ctx) {
 		rn := run.New(c)
 		rn.RunTimeout = 60 * time.Second
 		dbg("compiler and runtime built")
-		pool := fe.NewPool(c.W, filepath.Join(c.Repo, "ferret_libs"), 7)
+		pool := fe.NewPool(c.W, filepath.Join(c.Repo, "ferret_libs"), 5)
 		var judged, rejected, programs int64
 		families := map[string][2]int64{}
 		var wg sync.WaitGroup
@@ -453,7 +453,10 @@ func Run(c *vl.Ctx) {
 			if tg := os.Getenv("VERIF_C18_TARGET"); tg != "" && tg != target {
 				continue
 			}
-			r := &runner{c: c, rn: rn, target: target, workers: 7}
+			r := &runner{c: c, rn: rn, target: target, workers: 9}
+			if target == "wasm" {
+				r.workers = 5
+			}
 			if target == "wasm" && os.Getenv("VERIF_C18_WASM_BINARY") == "" {
 				r.pool = pool
 			}
